@@ -181,7 +181,7 @@ pub trait Prop: Sync {
         vec![]
     }
     /// extra deterministic checks run once (name, result)
-    fn extra(&self, _ctx: &mut Ctx) -> Vec<(String, Verdict)> {
+    fn extra(&self, _ctx: &mut Ctx) -> Vec<(String, Verdict, Option<Self::Case>)> {
         vec![]
     }
 }
@@ -286,6 +286,10 @@ pub fn run_check<P: Prop>(prop: &P, tier: Tier, seed: u64) -> i32 {
         let mut files: Vec<_> = std::fs::read_dir(&cdir)
             .map(|rd| rd.filter_map(|e| e.ok()).map(|e| e.path()).collect())
             .unwrap_or_default();
+        if std::env::var("VERIF_NO_CORPUS").is_ok() {
+            // sensitivity experiments only: measure what the generators find without the regression corpus
+            files.clear();
+        }
         files.sort();
         let mut n_corpus = 0;
         for f in files {
@@ -325,12 +329,12 @@ pub fn run_check<P: Prop>(prop: &P, tier: Tier, seed: u64) -> i32 {
         obs.label(&format!("corpus_cases={n_corpus}"));
         // extra deterministic checks
         let mut ctx = Ctx { w: &mut w, obs: &mut obs, known: &known, tier, replay: false };
-        for (name, v) in prop.extra(&mut ctx) {
+        for (name, v, case) in prop.extra(&mut ctx) {
             if let Verdict::Fail(fl) = v {
                 violations.push(Violation {
                     sub: name,
-                    case_json: Value::Null,
-                    describe: Value::Null,
+                    case_json: case.as_ref().map(|c| serde_json::to_value(c).unwrap()).unwrap_or(Value::Null),
+                    describe: case.as_ref().map(|c| prop.describe(c)).unwrap_or(Value::Null),
                     failure: fl,
                     shrunk: true,
                     replay_path: None,
